@@ -145,6 +145,8 @@ inductive Op where
   | read           -- reading the solver's assertion list
   | solveFails     -- `solve()` that raises
   | oneshotFails (q : Query) (fail : Fail) (f : Nat)   -- one-shot query that raises
+  | assumingPush (f : Nat)        -- `solve([f])` for an assumption the wrapper cannot pass natively
+  | assumingPushFails (f : Nat)   -- … and the wrapper's attempt to assert it raises
   deriving Repr, DecidableEq, Inhabited
 
 def Op.cmd : Op → Cmd
@@ -157,11 +159,15 @@ def Op.cmd : Op → Cmd
   | .read => .other
   | .solveFails => .check
   | .oneshotFails _ _ _ => .check      -- also a query that raises leaves the assertions as it found them
+  | .assumingPush _ => .check
+  | .assumingPushFails _ => .check
 
 /-- the calls property C16 calls one-shot queries -/
 def Op.isOneshot : Op → Bool
   | .oneshot _ _ => true
   | .oneshotFails _ _ _ => true
+  | .assumingPush _ => true
+  | .assumingPushFails _ => true
   | _ => false
 
 def runOps (ops : List Op) : Option Stack := run (ops.map Op.cmd)
